@@ -77,6 +77,10 @@ def r1_shapes(ck, repo):
         want_lead = {"ensemble": ("E", "N"), "per-member": ("E", "N"), "agg": ("N",), "member": ("N",)}[tag]
         ok = ok and tuple(r[1][0][:-1]) == want_lead
         got = r[1] if isinstance(r, tuple) and r and r[0] == "tuple" else r
+        known = isinstance(r, tuple) and r and r[0] == "tuple" and len(r[1]) == 2 and any(isinstance(x, tuple) and None not in x for x in r[1])
+        if not ok and not known and not se.alarms:
+            # the abstract shapes could not be followed through this formulation: undecided, not a violation
+            raise AnalysisError(f"{site}: symbolic shapes of (mean, variance) could not be determined for x {tuple(argsh['x'])} (got {got}): restructured beyond what the shape engine follows")
         ck.ob("R1-one-variance-per-output", site, f"mean-var-shapes:{tag}", bool(ok), f"x {tuple(argsh['x'])} -> mean {got[0] if isinstance(got, list) else got}, variance {got[1] if isinstance(got, list) and len(got) > 1 else None}",
               "" if ok else f"mean and variance must both have shape {want_lead + ('O',)}: one variance per output dimension (a second output axis means every scalar was broadcast against the per-output bounds)", loc(fn._module, fn))
         for rel, line, kind, text, qual in se.alarms:
@@ -85,6 +89,9 @@ def r1_shapes(ck, repo):
     se.alarms = []
     r = se.analyse(fn, fn._module, ENS + ".base_distribution", {"x": ("N", "F"), "i": ()}, {}, 0, dict(attrs))
     ok = isinstance(r, tuple) and r and r[0] == "tuple" and r[1][0] == r[1][1] == ("N", "O")
+    known = isinstance(r, tuple) and r and r[0] == "tuple" and len(r[1]) == 2 and any(isinstance(x, tuple) and None not in x for x in r[1])
+    if not ok and not known and not se.alarms:
+        raise AnalysisError(f"{ENS}.base_distribution: symbolic shapes of (loc, scale) could not be determined (got {r})")
     ck.ob("R1-one-variance-per-output", ENS + ".base_distribution", "loc-scale-shapes", bool(ok), f"x (N,F) -> loc {r[1][0] if ok or (isinstance(r, tuple) and r and r[0] == 'tuple') else r}, scale {r[1][1] if isinstance(r, tuple) and r and r[0] == 'tuple' else None}",
           "" if ok else "loc and scale_diag must both be (N, O)", loc(fn._module, fn))
     # vmap depth of the wrappers
